@@ -31,6 +31,118 @@ type c36Input struct {
 	IdleUs   int64   `json:"idle_us"`
 	Timed    bool    `json:"timed,omitempty"` // contains sleeps / idle-timer expectations
 	Ops      []c36Op `json:"ops"`
+	Conc     *c36Conc `json:"concurrent,omitempty"` // a concurrent scenario instead of a sequence
+}
+
+// c36Conc: request A is being delayed (delays_us[1], level 1); while it sleeps a pressure
+// signal arrives (op), and shortly after it request B calls Delay with a context that ends
+// after CtxUs (0 = never).  Oracle-only (the model is sequential):
+//   - the signal returns at once (it must not wait for sleepers),
+//   - B waits no longer than the delay of the level the signal left (+ slack), and returns when
+//     its context ends,
+//   - A is not disturbed, and the level afterwards is what the signal rules say.
+type c36Conc struct {
+	Op    string `json:"op"` // sig | rel | rst
+	CtxUs int64  `json:"ctx_us,omitempty"`
+}
+
+func c36ConcOnce(in c36Input) (fail, sig string) {
+	tbl := in.DelaysUs
+	delays := make([]time.Duration, len(tbl))
+	for i, d := range tbl {
+		delays[i] = time.Duration(d) * time.Microsecond
+	}
+	th := New(delays, in.Rate, 0)
+	th.Signal() // level 1
+	ref := c36NewRef(in)
+	ref.apply(c36Op{K: "sig"})
+	aDone := make(chan c36Obs, 1)
+	go func() {
+		t0 := time.Now()
+		err := th.Delay(context.Background())
+		aDone <- c36Obs{Elapsed: c36Us(time.Since(t0)), Err: c36ErrCode(err)}
+	}()
+	time.Sleep(50 * time.Millisecond) // A is asleep in Delay now
+	// the pressure signal
+	wDone := make(chan time.Duration, 1)
+	go func() {
+		t0 := time.Now()
+		switch in.Conc.Op {
+		case "sig":
+			th.Signal()
+		case "rel":
+			th.Release()
+		default:
+			th.Reset()
+		}
+		wDone <- time.Since(t0)
+	}()
+	ref.apply(c36Op{K: in.Conc.Op})
+	time.Sleep(20 * time.Millisecond)
+	// request B
+	wantB := ref.tbl[ref.level]
+	wantErr := 0
+	ctx, cancel := context.Background(), context.CancelFunc(func() {})
+	tb := time.Now()
+	if in.Conc.CtxUs > 0 {
+		ctx, cancel = context.WithTimeout(ctx, time.Duration(in.Conc.CtxUs)*time.Microsecond)
+		if wantB > 0 && in.Conc.CtxUs < wantB {
+			wantB, wantErr = in.Conc.CtxUs, 2
+		}
+	}
+	errB := th.Delay(ctx)
+	elB := c36Us(time.Since(tb))
+	cancel()
+	wEl := <-wDone
+	a := <-aDone
+	lvl := int64(th.Level())
+	const slack = 150000 // us
+	switch {
+	case c36Us(wEl) > slack:
+		return fmt.Sprintf("%s took %dus to return while another request was sleeping in Delay (delay %dus)", in.Conc.Op, c36Us(wEl), tbl[1]), "C36:concurrent:signal-blocked-behind-delay"
+	case elB > 5*wantB+100000 && wantErr != 0:
+		return fmt.Sprintf("second request: context ended after %dus but Delay returned after %dus (first request sleeping %dus, %s pending)", wantB, elB, tbl[1], in.Conc.Op), "C36:concurrent:delay-ignores-context"
+	case elB > 5*wantB+100000:
+		return fmt.Sprintf("second request waited %dus, the current delay after %s is %dus (first request sleeping %dus)", elB, in.Conc.Op, wantB, tbl[1]), "C36:concurrent:delay-too-long"
+	case elB < wantB:
+		return fmt.Sprintf("second request waited %dus, expected %dus", elB, wantB), "C36:concurrent:delay-too-short"
+	case c36ErrCode(errB) != wantErr:
+		return fmt.Sprintf("second request: error code %d, expected %d", c36ErrCode(errB), wantErr), "C36:concurrent:delay-wrong-error"
+	case a.Err != 0 || a.Elapsed < tbl[1] || a.Elapsed > 5*tbl[1]+100000:
+		return fmt.Sprintf("first request: waited %dus (error code %d) with a delay of %dus", a.Elapsed, a.Err, tbl[1]), "C36:concurrent:first-delay-disturbed"
+	case lvl != ref.level:
+		return fmt.Sprintf("level %d after signal, %s; the rules give %d", lvl, in.Conc.Op, ref.level), "C36:concurrent:level"
+	}
+	return "", ""
+}
+
+// timing failures must repeat three times in a row (jitter only adds time)
+func c36ConcCase(in c36Input) VCase {
+	var fail, sig string
+	for attempt := 0; attempt < 3; attempt++ {
+		if fail, sig = c36ConcOnce(in); fail == "" {
+			break
+		}
+	}
+	js, _ := json.Marshal(in)
+	c := VCase{Input: in, Key: string(js), Nontrivial: true, Tags: []string{"concurrent", "concurrent-" + in.Conc.Op}}
+	if fail != "" {
+		c.OracleFail, c.Sig = fail, sig
+	}
+	return c
+}
+
+// table: level 1 sleeps 1 s (request A), level 2 is a 100 ms delay (what B meets after a Signal)
+func c36ConcInputs() []c36Input {
+	var out []c36Input
+	for _, op := range []string{"sig", "rel", "rst"} {
+		for _, ctxUs := range []int64{0, 60000} {
+			out = append(out, c36Input{DelaysUs: []int64{0, 1000000, 100000}, Rate: 1, Timed: true, Conc: &c36Conc{Op: op, CtxUs: ctxUs}})
+		}
+	}
+	// after a Signal the second request meets a long delay and a short context
+	out = append(out, c36Input{DelaysUs: []int64{0, 1000000, 900000}, Rate: 1, Timed: true, Conc: &c36Conc{Op: "sig", CtxUs: 60000}})
+	return out
 }
 
 // what was seen after one operation
@@ -342,6 +454,9 @@ func c36Coq(in c36Input, obs []c36Obs) string {
 // c36Case runs a case; anything that depends on wall-clock time must fail three times in a row
 // to count (scheduling jitter only ever adds time, a wrong implementation fails every time).
 func c36Case(in c36Input) VCase {
+	if in.Conc != nil {
+		return c36ConcCase(in)
+	}
 	var res c36Result
 	for attempt := 0; attempt < 3; attempt++ {
 		res = c36RunOnce(in)
@@ -677,5 +792,6 @@ func TestVerif_C36(t *testing.T) {
 		timed = append(timed, c36GenRestart(rng))
 	}
 	c36RunAll(w, untimed, 8)
+	timed = append(timed, c36ConcInputs()...)
 	c36RunAll(w, timed, 16)
 }
